@@ -882,6 +882,17 @@ fn parse_punctuated_nested_meta(
     allowed_attr_params: &[&str],
     wrapper_name: Option<&str>,
 ) -> Result<()> {
+    // Sets the parameter once: repeating or contradicting it is an error.
+    fn set<S: Spanned>(slot: &mut Option<bool>, value: bool, at: &S) -> Result<()> {
+        if slot.replace(value).is_some() {
+            return Err(Error::new(
+                at.span(),
+                "Attribute parameter is specified more than once or contradicts another one",
+            ));
+        }
+        Ok(())
+    }
+
     for meta in meta.iter() {
         match meta {
             polyfill::Meta::List(list) if list.path.is_ident("not") => {
@@ -917,9 +928,9 @@ fn parse_punctuated_nested_meta(
 
                 let attr_name = path.get_ident().unwrap().to_string();
                 match (wrapper_name, attr_name.as_str()) {
-                    (None, "owned") => info.owned = Some(true),
-                    (None, "ref") => info.ref_ = Some(true),
-                    (None, "ref_mut") => info.ref_mut = Some(true),
+                    (None, "owned") => set(&mut info.owned, true, list)?,
+                    (None, "ref") => set(&mut info.ref_, true, list)?,
+                    (None, "ref_mut") => set(&mut info.ref_mut, true, list)?,
 
                     #[cfg(any(feature = "from", feature = "into"))]
                     (None, "types")
@@ -1014,16 +1025,21 @@ fn parse_punctuated_nested_meta(
 
                 let attr_name = path.get_ident().unwrap().to_string();
                 match (wrapper_name, attr_name.as_str()) {
-                    (None, "ignore") => info.enabled = Some(false),
-                    (None, "forward") => info.forward = Some(true),
-                    (Some("not"), "forward") => info.forward = Some(false),
-                    (None, "owned") => info.owned = Some(true),
-                    (None, "ref") => info.ref_ = Some(true),
-                    (None, "ref_mut") => info.ref_mut = Some(true),
-                    (None, "source") => info.source = Some(true),
-                    (Some("not"), "source") => info.source = Some(false),
-                    (None, "backtrace") => info.backtrace = Some(true),
-                    (Some("not"), "backtrace") => info.backtrace = Some(false),
+                    (None, "ignore") => {
+                        // `enabled` is pre-set to `true` by the presence of the attribute itself.
+                        let mut seen = info.enabled.filter(|enabled| !enabled);
+                        set(&mut seen, false, path)?;
+                        info.enabled = seen;
+                    }
+                    (None, "forward") => set(&mut info.forward, true, path)?,
+                    (Some("not"), "forward") => set(&mut info.forward, false, path)?,
+                    (None, "owned") => set(&mut info.owned, true, path)?,
+                    (None, "ref") => set(&mut info.ref_, true, path)?,
+                    (None, "ref_mut") => set(&mut info.ref_mut, true, path)?,
+                    (None, "source") => set(&mut info.source, true, path)?,
+                    (Some("not"), "source") => set(&mut info.source, false, path)?,
+                    (None, "backtrace") => set(&mut info.backtrace, true, path)?,
+                    (Some("not"), "backtrace") => set(&mut info.backtrace, false, path)?,
                     _ => {
                         return Err(Error::new(
                             path.span(),
